@@ -97,7 +97,7 @@ func (d *c16Data) history() string {
 
 func init() {
 	Register(&Scenario{
-		Prop: "C16", Name: "heartbeat",
+		Prop: "C16", Name: "heartbeat", DeadlockDirected: true,
 		NonTrivial: []string{"c16-refresh-observed"},
 		Build: func(w *World) {
 			d := &c16Data{}
